@@ -8,6 +8,7 @@ from typing import Dict, List, Optional, Set, Tuple
 
 from ..core import Ctx, Ob, rule
 from ..model import AnalysisError, Func, iter_own, norm
+from ..pat import find, has, match, one
 
 
 def _str_keys_written(f: Func) -> Set[str]:
@@ -127,255 +128,318 @@ def keys(ctx: Ctx) -> List[Ob]:
     return obs
 
 
-@rule("FMT", ["C05", "C12", "C14"], floor=20, section="3.11")
+@rule("FMT", ["C05", "C12", "C14", "C17", "C19"], floor=20, section="3.11")
 def fmt(ctx: Ctx) -> List[Ob]:
     """layout: 1-based entry indices with 0 for the root in writer and both readers; the maps written to the header are the ones applied; clone references only under equal kind and keyed like is_clone(); key/value compression mirrored; load() validates the header; save zips unless compression is False and flushes the text wrapper"""
     obs: List[Ob] = []
     m = ctx.model
     env = ctx.env
-    # ---- FMT-IDX
+
+    def O(props, f, label, ok, why="", node=None):
+        obs.append(ctx.ob("FMT", props, f, label, node, bool(ok), "" if ok else why))
+
+    # ---------------------------------------------------------------- writer
     w = m.func("Node.to_list_iter")
-    en = [n for n in iter_own(w.node) if isinstance(n, ast.For) and isinstance(n.iter, ast.Call) and norm(n.iter.func) == "enumerate"]
-    ok = len(en) == 1 and len(en[0].iter.args) == 2 and norm(en[0].iter.args[1]) == "1" and norm(en[0].iter.args[0]) == "self"
-    obs.append(ctx.ob("FMT", ["C12", "C05"], w, "writer numbers entries with enumerate(self, 1) in pre-order", en[0] if en else None, ok,
-                      "" if ok else "entries are numbered from 1 in the default (pre-order) iteration; 0 is reserved for the root"))
-    roots = [n for n in iter_own(w.node) if isinstance(n, ast.Assign) and isinstance(n.value, ast.Dict) and len(n.value.keys) == 1
-             and norm(n.value.keys[0]) == "self._node_id"]
-    ok = len(roots) == 1 and norm(roots[0].value.values[0]) == "0"
-    obs.append(ctx.ob("FMT", ["C12", "C05"], w, "writer maps the start node to parent index 0", roots[0] if roots else None, ok,
-                      "" if ok else "top-level entries must name parent 0"))
-    if en:
+    en = [n for n in iter_own(w.node) if isinstance(n, ast.For) and match("enumerate($$x, $$s)", n.iter) is not None or
+          (isinstance(n, ast.For) and match("enumerate($$x)", n.iter) is not None)]
+    e = match("for $i, $n in enumerate(self, 1):\n    ...", en[0]) if len(en) == 1 else None
+    O(["C12", "C05"], w, "writer numbers entries with enumerate(self, 1) in pre-order", e is not None,
+      "entries are numbered from 1 in the default (pre-order) iteration; 0 is reserved for the root", en[0] if en else None)
+    pm = one("$pm = {self._node_id: $$z}", w.node)
+    O(["C12", "C05"], w, "writer maps the start node to parent index 0", pm is not None and norm(pm[1]["$$z"]) == "0", "top-level entries must name parent 0")
+    if e is not None and pm is not None:
         lp = en[0]
-        idx_var = norm(lp.target.elts[0]) if isinstance(lp.target, ast.Tuple) else "?"
-        node_var = norm(lp.target.elts[1]) if isinstance(lp.target, ast.Tuple) else "?"
-        stores = [st for st in ast.walk(lp) if isinstance(st, ast.Assign) and norm(st.targets[0]).startswith("parent_id_map[")]
-        ok = len(stores) == 1 and norm(stores[0].value) == idx_var and norm(stores[0].targets[0]) in (f"parent_id_map[{node_var}._node_id]", "parent_id_map[node_id]")
-        obs.append(ctx.ob("FMT", ["C12", "C05"], w, "a parent's own entry index is recorded under its node_id", None, ok,
-                          "" if ok else "children look their parent up by node_id and must find the parent's entry position"))
-        look = [st for st in ast.walk(lp) if isinstance(st, ast.Assign) and isinstance(st.value, ast.Subscript) and norm(st.value.value) == "parent_id_map"]
-        ok2 = len(look) == 1 and norm(look[0].value.slice) in (f"{node_var}._parent._node_id", "parent_id")
-        if ok2 and norm(look[0].value.slice) == "parent_id":
-            src = [st for st in ast.walk(lp) if isinstance(st, ast.Assign) and norm(st.targets[0]) == "parent_id"]
-            ok2 = len(src) == 1 and norm(src[0].value) == f"{node_var}._parent._node_id"
-        obs.append(ctx.ob("FMT", ["C12", "C05"], w, "each entry names its parent's recorded index", None, ok2,
-                          "" if ok2 else "the parent reference must be the index recorded for node._parent"))
-        if stores and look:
-            ok3 = stores[0].lineno < look[0].lineno
-            obs.append(ctx.ob("FMT", ["C12"], w, "the index is recorded before it can be looked up (pre-order: parents first)", None, ok3, ""))
-        # clone reference only under kind equality, and yields the first occurrence's index
-        ys = [x for x in ast.walk(lp) if isinstance(x, ast.Yield)]
-        ref = [y for y in ys if isinstance(y.value, ast.Tuple) and norm(y.value.elts[1]) in ("clone_idx",)]
-        okc = len(ref) == 1
+        iv, nv, pmv = e["$i"], e["$n"], pm[1]["$pm"]
+        B = {"$i": iv, "$n": nv, "$pm": pmv}
+        # parent index recorded under the node's id, for nodes with children
+        st = one("$pm[$$k] = $i", lp, B)
+        okk = st is not None
+        if okk:
+            k = st[1]["$$k"]
+            okk = norm(k) == f"{nv}._node_id" or (isinstance(k, ast.Name) and has(f"{k.id} = {nv}._node_id", lp))
+        O(["C12", "C05"], w, "a parent's own entry index is recorded under its node_id", okk,
+          "children look their parent up by node_id and must find the parent's entry position")
+        # ... on every iteration path: the recording statement comes before any `continue`
+        if st is not None:
+            top = [s_ for s_ in lp.body if any(x is st[0] for x in ast.walk(s_))]
+            conts = [i for i, s_ in enumerate(lp.body) if any(isinstance(x, ast.Continue) for x in ast.walk(s_))]
+            okp = bool(top) and (not conts or lp.body.index(top[0]) < min(conts))
+            O(["C12", "C05"], w, "the index of a parent is recorded before any early `continue` (also for clones that have children)", okp,
+              "a later occurrence of a clone that has children of its own would never record its index: save() fails with KeyError / children get a wrong parent")
+        lk = one("$x = $pm[$$k]", lp, B)
+        okl = lk is not None
+        if okl:
+            k = lk[1]["$$k"]
+            okl = norm(k) == f"{nv}._parent._node_id" or (isinstance(k, ast.Name) and has(f"{k.id} = {nv}._parent._node_id", lp))
+        O(["C12", "C05"], w, "each entry names its parent's recorded index", okl, "the parent reference must be the index recorded for node._parent")
+        if st is not None and lk is not None:
+            O(["C12"], w, "the index is recorded before it can be looked up (pre-order: parents first)", st[0].lineno < lk[0].lineno)
+        # clone references
+        cm = one("$ci, $ck = $cm.get($$key, (None, None))", lp)
+        okc = cm is not None
         if okc:
-            p = m.parent_of(m.parent_of(ref[0]))
-            okc = isinstance(p, ast.If) and norm(p.test) in ("node_kind == clone_kind", "clone_kind == node_kind")
-        obs.append(ctx.ob("FMT", ["C12", "C05"], w, "a clone is stored as a bare index only when its kind equals the first occurrence's", None, okc,
-                          "" if okc else "clones of differing kind must be written out in full"))
-        okc2 = len(ref) == 1 and any(isinstance(st, ast.Continue) for st in ast.walk(m.parent_of(m.parent_of(ref[0]))))
-        obs.append(ctx.ob("FMT", ["C12"], w, "after a clone reference the entry is not written a second time", None, okc2, "" if okc2 else "missing `continue`"))
-        note = [st for st in ast.walk(lp) if isinstance(st, ast.Assign) and norm(st.targets[0]).startswith("clone_idx_and_kind_map[")]
-        okn = len(note) == 1 and norm(note[0].value) == f"({idx_var}, node_kind)"
-        obs.append(ctx.ob("FMT", ["C12", "C05"], w, "the first occurrence of a clone records (its index, its kind)", None, okn, "" if okn else "later occurrences refer to this index"))
-        # FMT-CLONEKEY: the clone map is keyed like is_clone(): by node._data_id
-        keyname = None
-        if note:
-            keyname = norm(note[0].targets[0].slice)
-        okk = False
-        if keyname:
-            vals = [st for st in ast.walk(lp) if isinstance(st, ast.Assign) and norm(st.targets[0]) == keyname]
-            okk = keyname in (f"{node_var}._data_id", f"{node_var}.data_id") or (len(vals) == 1 and norm(vals[0].value) in (f"{node_var}._data_id", f"{node_var}.data_id"))
-        obs.append(ctx.ob("FMT", ["C05", "C12"], w, "clone references are keyed by node._data_id (like is_clone())", None, okk,
-                          "" if okk else f"the clone map is keyed by `{keyname}` = a data_id recomputed from the data: nodes that share data "
-                          "but carry different explicit data_ids are merged into one clone group on reload (and is_clone() groups by _data_id)"))
-        # mapper only for dict entries; compression after mapper
-        mp = [x for x in ast.walk(lp) if isinstance(x, ast.Call) and norm(x.func) == "call_mapper"]
+            C = {**B, "$ci": cm[1]["$ci"], "$ck": cm[1]["$ck"], "$cm": cm[1]["$cm"]}
+            ref = find("yield ($x, $ci)", lp, C)
+            okc = len(ref) == 1
+            blk = m.parent_of(m.parent_of(ref[0][0])) if okc else None
+            okc = okc and isinstance(blk, ast.If) and (match("$nk == $ck", blk.test, C) is not None or match("$ck == $nk", blk.test, C) is not None)
+            O(["C12", "C05"], w, "a clone is stored as a bare index only when its kind equals (==) the first occurrence's", okc,
+              "clones of differing kind must be written out in full; kinds are compared by value")
+            okc2 = isinstance(blk, ast.If) and any(isinstance(x, ast.Continue) for x in blk.body)
+            O(["C12"], w, "after a clone reference the entry is not written a second time", okc2, "missing `continue`")
+            note = one("$cm[$$key2] = ($i, $nk)", lp, C)
+            O(["C12", "C05"], w, "the first occurrence of a clone records (its index, its kind)", note is not None, "later occurrences refer to this index")
+            if note is not None:
+                pblk = m.parent_of(note[0])
+                O(["C12", "C05"], w, "only clones are noted (elif node.is_clone())", isinstance(pblk, ast.If) and has(f"{nv}.is_clone()", pblk.test), "")
+            key = cm[1]["$$key"]
+            okk = norm(key) in (f"{nv}._data_id", f"{nv}.data_id")
+            if not okk and isinstance(key, ast.Name):
+                vals = find(f"{key.id} = $$v", lp)
+                okk = len(vals) == 1 and norm(vals[0][1]["$$v"]) in (f"{nv}._data_id", f"{nv}.data_id")
+            O(["C05", "C12"], w, "clone references are keyed by node._data_id (like is_clone())", okk,
+              f"the clone map is keyed by `{norm(key)}`, not by the node's data_id: nodes that share data but carry different explicit data_ids are "
+              "merged into one clone group on reload (and is_clone() groups by _data_id)")
+        else:
+            O(["C12", "C05"], w, "clone map lookup found", False, "clone reference shape not recognised")
+        mp = find("call_mapper($$a, $$b, $$c)", lp)
         cp = [x for x in ast.walk(lp) if isinstance(x, ast.Call) and norm(x.func).endswith("_compress_entry")]
-        okm = len(mp) == 1 and len(cp) == 1 and mp[0].lineno < cp[0].lineno and [norm(a) for a in cp[0].args][1:] == ["key_map", "value_dict_map"]
-        obs.append(ctx.ob("FMT", ["C05", "C12"], w, "mapper first, then key/value compression with the caller's maps", None, okm,
-                          "" if okm else "keys are shortened exactly as the header's maps declare, after the mapper produced them"))
+        okm = len(mp) == 1 and len(cp) == 1 and mp[0][0].lineno < cp[0].lineno and norm(cp[0].args[1]) == "key_map"
+        O(["C05", "C12"], w, "mapper first, then key/value compression with the caller's maps", okm,
+          "keys are shortened exactly as the header's maps declare, after the mapper produced them")
+        if cp:
+            g = m.parent_of(m.parent_of(cp[0]))
+            okg = not isinstance(g, ast.If) or ({"key_map", "value_map"} <= {x.id for x in ast.walk(g.test) if isinstance(x, ast.Name)}
+                                                  and isinstance(g.test, ast.BoolOp) and isinstance(g.test.op, ast.Or))
+            O(["C05", "C12"], w, "entries are compressed when a key map OR a value map is in use", okg,
+              "with key_map off and a value map on, the header declares $value_map but the entries keep the long values")
+            vd = one("{$k: {$v: $j for $j, $v in enumerate($a)} for $k, $a in value_map.items()}", w.node)
+            tgt = None
+            if vd is not None:
+                pa_ = m.parent_of(vd[0])
+                if isinstance(pa_, ast.AnnAssign):
+                    tgt = norm(pa_.target)
+                elif isinstance(pa_, ast.Assign):
+                    tgt = norm(pa_.targets[0])
+            O(["C05", "C12"], w, "value lists are turned into value->index dicts (index = position in the header's list)",
+              tgt is not None and norm(cp[0].args[2]) == tgt, "value indices must be positions in the list written to the header")
+    # --------------------------------------------------------------- readers
     for q in ("Tree._from_list", "TypedTree._from_list"):
         r = m.func(q)
         en = [n for n in iter_own(r.node) if isinstance(n, ast.For) and isinstance(n.iter, ast.Call) and norm(n.iter.func) == "enumerate"]
-        ok = len(en) == 1 and len(en[0].iter.args) == 2 and norm(en[0].iter.args[1]) == "1"
-        obs.append(ctx.ob("FMT", ["C12", "C05"], r, "reader numbers entries from 1", en[0] if en else None, ok, "" if ok else "reader and writer must count alike"))
-        roots = [n for n in iter_own(r.node) if isinstance(n, (ast.Assign, ast.AnnAssign)) and isinstance(n.value, ast.Dict) and len(n.value.keys) == 1
-                 and norm(n.value.keys[0]) == "0"]
-        ok = len(roots) == 1 and norm(roots[0].value.values[0]) in ("tree._root", "tree.system_root")
-        obs.append(ctx.ob("FMT", ["C12", "C05"], r, "reader maps index 0 to the root", None, ok, "" if ok else "parent index 0 is the (invisible) root"))
-        if en:
-            lp = en[0]
-            iv = norm(lp.target.elts[0]) if isinstance(lp.target, ast.Tuple) else "?"
-            st = [s for s in lp.body if isinstance(s, ast.Assign) and norm(s.targets[0]) == f"node_idx_map[{iv}]"]
-            ok = len(st) == 1 and lp.body[-1] is st[0]
-            obs.append(ctx.ob("FMT", ["C12", "C05"], r, "every created node is recorded under its entry index", None, ok, "" if ok else "later entries refer to earlier ones by position"))
-            kinds = {"str": False, "int": False, "dict": False}
-            for s in ast.walk(lp):
-                if isinstance(s, ast.If):
-                    t = norm(s.test)
-                    if t == "isinstance(data, str)":
-                        kinds["str"] = True
-                    if t == "isinstance(data, int)":
-                        kinds["int"] = True
-                        refadd = [x for x in ast.walk(s) if isinstance(x, ast.Call) and isinstance(x.func, ast.Attribute) and x.func.attr in ("add", "add_child")]
-                        okr = bool(refadd) and norm(refadd[0].args[0]) == "first_clone" and any(k.arg == "data_id" and "first_clone" in norm(k.value) for k in refadd[0].keywords)
-                        src = [x for x in s.body if isinstance(x, ast.Assign) and norm(x.targets[0]) == "first_clone"]
-                        okr = okr and len(src) == 1 and norm(src[0].value) == "node_idx_map[data]"
-                        obs.append(ctx.ob("FMT", ["C12", "C05"], r, "a bare index re-creates a clone of the node at that position, under its data_id", s, okr,
-                                          "" if okr else "clone references must resolve through node_idx_map and keep the data_id"))
-                        if q.startswith("Typed"):
-                            okk = bool(refadd) and any(k.arg == "kind" and "first_clone.kind" in norm(k.value) for k in refadd[0].keywords)
-                            obs.append(ctx.ob("FMT", ["C05"], r, "a typed clone reference keeps the first occurrence's kind", s, okk, "" if okk else "kind lost on reload"))
-            last_else = True
-            for k, v in kinds.items():
-                if k == "dict":
-                    continue
-                obs.append(ctx.ob("FMT", ["C12"], r, f"reader handles {k} entries", None, v, "" if v else f"{k} entries of the documented layout are not handled"))
-    # ---- FMT-MAP (save)
+        e = match("for $i, ($p, $d) in enumerate(obj, 1):\n    ...", en[0]) if len(en) == 1 else None
+        O(["C12", "C05"], r, "reader numbers entries from 1", e is not None, "reader and writer must count alike", en[0] if en else None)
+        nm = None
+        for n in iter_own(r.node):
+            if isinstance(n, (ast.Assign, ast.AnnAssign)) and n.value is not None:
+                e2 = match("{0: $t._root}", n.value) or match("{0: $t.system_root}", n.value)
+                if e2 is not None:
+                    nm = norm(n.target if isinstance(n, ast.AnnAssign) else n.targets[0])
+        O(["C12", "C05"], r, "reader maps index 0 to the root", nm is not None, "parent index 0 is the (invisible) root")
+        if e is None or nm is None:
+            continue
+        lp = en[0]
+        iv, pv, dv = e["$i"], e["$p"], e["$d"]
+        last = lp.body[-1]
+        el = match(f"{nm}[{iv}] = $n", last)
+        O(["C12", "C05"], r, "every created node is recorded under its entry index", el is not None, "later entries refer to earlier ones by position")
+        par = one(f"$par = {nm}[{pv}]", lp)
+        O(["C12", "C05"], r, "the parent is looked up by the entry's parent index", par is not None, "")
+        if par is None:
+            continue
+        pa = par[1]["$par"]
+        chain = [s_ for s_ in lp.body if isinstance(s_, ast.If)]
+        tests = {}
+        if chain:
+            from .trav import _if_chain
+            tests = {(norm(t) if t is not None else "else"): b for t, b in _if_chain(chain[0])}
+        O(["C12"], r, "reader handles str, int (clone reference) and dict entries", {f"isinstance({dv}, str)", f"isinstance({dv}, int)", "else"} <= set(tests),
+          "entries of the documented layout are not handled")
+        ib = tests.get(f"isinstance({dv}, int)")
+        if ib is not None:
+            fc = one(f"$fc = {nm}[{dv}]", ib)
+            okr = fc is not None
+            if okr:
+                adds = [c for c in ast.walk(ast.Module(body=ib, type_ignores=[])) if isinstance(c, ast.Call) and isinstance(c.func, ast.Attribute)
+                        and c.func.attr in ("add", "add_child") and norm(c.func.value) == pa]
+                okr = len(adds) == 1 and norm(adds[0].args[0]) == fc[1]["$fc"] and any(k.arg == "data_id" and norm(k.value) in (f"{fc[1]['$fc']}.data_id", f"{fc[1]['$fc']}._data_id") for k in adds[0].keywords)
+                O(["C12", "C05"], r, "a bare index re-creates a clone of the node at that position, under its data_id", okr,
+                  "clone references must resolve through the index map and keep the data_id")
+                if q.startswith("Typed"):
+                    okk = len(adds) == 1 and any(k.arg == "kind" and norm(k.value) in (f"{fc[1]['$fc']}.kind", f"{fc[1]['$fc']}._kind") for k in adds[0].keywords)
+                    O(["C05"], r, "a typed clone reference keeps the first occurrence's kind", okk, "kind lost on reload")
+        eb = tests.get("else")
+        if eb is not None:
+            mod = ast.Module(body=eb, type_ignores=[])
+            cm = [c for c in ast.walk(mod) if isinstance(c, ast.Call) and norm(c.func) == "call_mapper"]
+            reads = [c for c in ast.walk(mod) if isinstance(c, ast.Call) and isinstance(c.func, ast.Attribute) and c.func.attr == "get"
+                     and norm(c.func.value) == dv and c.args and isinstance(c.args[0], ast.Constant)]
+            okm = len(cm) == 1 and bool(reads) and all(x.lineno < cm[0].lineno for x in reads)
+            O(["C12", "C05"], r, "data_id (and kind) are read from the entry before the mapper gets the dict", okm,
+              "a mapper may consume (pop) keys of the entry: ids and kinds read afterwards fall back to the defaults")
+            want = {"data_id"} | ({"kind"} if q.startswith("Typed") else set())
+            got = {c.args[0].value for c in reads}
+            O(["C12", "C05"], r, f"reader takes {sorted(want)} from dict entries", want <= got, "stored ids/kinds ignored")
+            adds = [c for c in ast.walk(mod) if isinstance(c, ast.Call) and isinstance(c.func, ast.Attribute) and c.func.attr in ("add", "add_child") and norm(c.func.value) == pa]
+            okd = len(adds) == 1 and any(k.arg == "data_id" for k in adds[0].keywords) and (not q.startswith("Typed") or any(k.arg == "kind" for k in adds[0].keywords))
+            O(["C12", "C05"], r, "the node is added below the looked-up parent with the stored data_id (and kind)", okd, "")
+    # ------------------------------------------------------------------ save
     sv = m.func("Tree.save")
+    hd = None
+    for n in iter_own(sv.node):
+        if isinstance(n, (ast.Assign, ast.AnnAssign)) and isinstance(n.value, ast.Dict) and any(isinstance(k, ast.Constant) and k.value == "$generator" for k in n.value.keys):
+            hd = norm(n.target if isinstance(n, ast.AnnAssign) else n.targets[0])
+    if hd is None:
+        raise AnalysisError("Tree.save: header dict not found")
+    calls = [c for c in env.calls_in[sv] if isinstance(c.func, ast.Attribute) and c.func.attr == "to_list_iter"]
     for key, var in (("$key_map", "key_map"), ("$value_map", "value_map")):
-        st = [n for n in iter_own(sv.node) if isinstance(n, ast.Assign) and norm(n.targets[0]) == f"header['{key}']"]
-        ok = len(st) == 1 and norm(st[0].value) == var
-        calls = [c for c in env.calls_in[sv] if isinstance(c.func, ast.Attribute) and c.func.attr == "to_list_iter"]
+        st = find(f"{hd}['{key}'] = $$v", sv.node)
+        ok = len(st) == 1 and norm(st[0][1]["$$v"]) == var
         ok = ok and len(calls) == 1 and any(k.arg == var and norm(k.value) == var for k in calls[0].keywords)
-        obs.append(ctx.ob("FMT", ["C12", "C05"], sv, f"the {var} written to the header is the one applied to the entries", None, ok,
-                          "" if ok else "a header map that differs from the applied one makes the file unreadable"))
-        p = m.parent_of(st[0]) if st else None
-        okc = isinstance(p, ast.If) and norm(p.test) == var
-        obs.append(ctx.ob("FMT", ["C12"], sv, f"header['{key}'] only when the map is in use", None, okc, "" if okc else ""))
+        O(["C12", "C05"], sv, f"the {var} written to the header is the one applied to the entries", ok, "a header map that differs from the applied one makes the file unreadable")
+        p_ = m.parent_of(st[0][0]) if st else None
+        O(["C12"], sv, f"header['{key}'] only when the map is in use", isinstance(p_, ast.If) and norm(p_.test) == var)
     for var, dflt in (("key_map", "self.DEFAULT_KEY_MAP"), ("value_map", "self.DEFAULT_VALUE_MAP")):
-        ifs = [n for n in iter_own(sv.node) if isinstance(n, ast.If) and norm(n.test) == f"{var} is True"]
-        ok = len(ifs) == 1 and norm(ifs[0].body[0]) == f"{var} = {dflt}" and len(ifs[0].orelse) == 1 and isinstance(ifs[0].orelse[0], ast.If) \
-            and norm(ifs[0].orelse[0].test) == f"{var} is False" and norm(ifs[0].orelse[0].body[0]) == f"{var} = {{}}"
-        obs.append(ctx.ob("FMT", ["C05"], sv, f"{var}: True -> class default, False -> off, dict -> as given", None, ok, "" if ok else "option normalisation changed"))
-    # meta is handed back
-    upd = [n for n in iter_own(sv.node) if isinstance(n, ast.Call) and norm(n.func) == "header.update" and norm(n.args[0]) == "meta"]
-    obs.append(ctx.ob("FMT", ["C05", "C12"], sv, "user metadata goes into the header", None, len(upd) == 1, "" if upd else "save(meta=) must be stored"))
-    dump = [c for c in env.calls_in[sv] if norm(c.func) == "json.dump"]
-    ok = len(dump) == 1 and norm(dump[0].args[0]) == "res" and norm(dump[0].args[1]) == "target"
-    obs.append(ctx.ob("FMT", ["C05"], sv, "the document is dumped to the target stream", None, ok, ""))
-    # ---- load: header validation + handing back meta + uncompress before _from_list
+        ok = has(f"if {var} is True:\n    {var} = {dflt}\nelif {var} is False:\n    {var} = {{}}", sv.node)
+        O(["C05"], sv, f"{var}: True -> class default, False -> off, dict -> as given", ok, "option normalisation changed")
+    O(["C05", "C12"], sv, "user metadata goes into the header", has(f"{hd}.update(meta)", sv.node), "save(meta=) must be stored")
+    doc = one("$doc = {'meta': $$h, 'nodes': $$n}", sv.node)
+    ok = doc is not None and norm(doc[1]["$$h"]) == hd and has(f"json.dump({doc[1]['$doc']}, target, indent=$_, separators=$_)", sv.node)
+    O(["C05", "C12"], sv, "the document {'meta': header, 'nodes': [...]} is dumped to the target stream", ok)
+    dumps = [c for c in env.calls_in[sv] if norm(c.func) == "json.dump"]
+    ok = len(dumps) == 1 and {k.arg for k in dumps[0].keywords} <= {"indent", "separators", "ensure_ascii"} and not any(
+        k.arg == "ensure_ascii" and norm(k.value) == "False" for k in dumps[0].keywords)
+    O(["C05"], sv, "json.dump keeps the default ASCII-safe escaping (path and stream targets behave alike)", ok,
+      "ensure_ascii=False makes the result depend on the target stream's encoding (lone surrogates from os.fsdecode fail for path targets only)")
+    # ------------------------------------------------------------------ load
     ld = m.func("Tree.load")
     rz = [n for n in iter_own(ld.node) if isinstance(n, ast.If) and any(isinstance(x, ast.Raise) for x in n.body)]
     ok = False
     if rz:
         t = norm(rz[0].test)
-        need = ["isinstance(obj, dict)", "'meta' not in obj", "'nodes' not in obj", "'$generator' not in obj['meta']", "'nutree/' not in"]
+        o = one("$o = json.load(target)", ld.node)
+        ov = o[1]["$o"] if o else "obj"
+        need = [f"isinstance({ov}, dict)", f"'meta' not in {ov}", f"'nodes' not in {ov}", f"'$generator' not in {ov}['meta']", "'nutree/' not in"]
         ok = all(x in t for x in need) and isinstance(rz[0].test, ast.BoolOp) and isinstance(rz[0].test.op, ast.Or)
-    obs.append(ctx.ob("FMT", ["C12"], ld, "load() rejects JSON without the nutree header", rz[0] if rz else None, ok,
-                      "" if ok else "non-dict documents, missing meta/nodes/$generator or a foreign generator must be refused"))
-    fm = [c for c in env.calls_in[ld] if norm(c.func) == "file_meta.update"]
-    ok = len(fm) == 1 and norm(fm[0].args[0]) == "obj['meta']"
-    obs.append(ctx.ob("FMT", ["C05", "C12"], ld, "load() hands the stored header back through file_meta", None, ok, "" if ok else "file metadata must be returned"))
-    inv = [n for n in iter_own(ld.node) if isinstance(n, ast.Assign) and isinstance(n.value, ast.DictComp)]
-    ok = len(inv) == 1 and norm(inv[0].value.key) == "v" and norm(inv[0].value.value) == "k" and "key_map.items()" in norm(inv[0].value)
-    obs.append(ctx.ob("FMT", ["C05", "C12"], ld, "the key map is inverted for reading", None, ok, "" if ok else "short keys must be mapped back to long keys"))
+    O(["C12"], ld, "load() rejects JSON without the nutree header", ok, "non-dict documents, missing meta/nodes/$generator or a foreign generator must be refused", rz[0] if rz else None)
+    O(["C05", "C12"], ld, "load() hands the stored header back through file_meta", has("file_meta.update($o['meta'])", ld.node), "file metadata must be returned")
+    inv = one("$inv = {$v: $k for $k, $v in $km.items()}", ld.node)
+    ok = inv is not None and has("$km = $o['meta'].get('$key_map', {})", ld.node, {"$km": inv[1]["$km"]})
+    O(["C05", "C12"], ld, "the key map is read from the header and inverted", ok, "short keys must be mapped back to long keys")
+    vm = one("$vm = $o['meta'].get('$value_map', {})", ld.node)
     un = [c for c in env.calls_in[ld] if norm(c.func).endswith("_uncompress_entry")]
     fl = [c for c in env.calls_in[ld] if norm(c.func).endswith("_from_list")]
-    ok = len(un) == 1 and len(fl) == 1 and un[0].lineno < fl[0].lineno and [norm(a) for a in un[0].args] == ["data", "inverse_key_map", "value_map"]
-    obs.append(ctx.ob("FMT", ["C05", "C12"], ld, "entries are expanded (keys, values) before nodes are built", None, ok, "" if ok else "compressed entries would reach the mapper unexpanded"))
+    ok = inv is not None and vm is not None and len(un) == 1 and len(fl) == 1 and un[0].lineno < fl[0].lineno         and [norm(a) for a in un[0].args][1:] == [inv[1]["$inv"], vm[1]["$vm"]]
+    O(["C05", "C12"], ld, "entries are expanded with the inverted key map and the header's value map before nodes are built", ok,
+      "compressed entries would reach the mapper unexpanded")
+    ok = len(fl) == 1 and any(k.arg == "mapper" and norm(k.value) == "mapper" for k in fl[0].keywords) and has("$o['nodes']", ld.node)
+    O(["C05", "C12"], ld, "the node list is built with the caller's mapper", ok)
     # ---- compress / uncompress mirrored
     for q, mapname, vm_key_is_mapped in (("Node._compress_entry", "key_map", False), ("Tree._uncompress_entry", "inverse_key_map", True)):
         f = m.func(q)
+        mapname = f.positional_params()[2] if len(f.positional_params()) > 2 else mapname
+        vmname = f.positional_params()[3] if len(f.positional_params()) > 3 else "value_map"
+        dname = f.positional_params()[1]
         lps = [n for n in iter_own(f.node) if isinstance(n, ast.For) and isinstance(n.target, ast.Tuple) and len(n.target.elts) == 2]
         if len(lps) != 1:
             raise AnalysisError(f"{q}: item loop not recognised")
         lp = lps[0]
         kv, vv = norm(lp.target.elts[0]), norm(lp.target.elts[1])
-        okcopy = isinstance(lp.iter, ast.Call) and norm(lp.iter.func) in ("list", "tuple") and norm(lp.iter.args[0]).endswith(".items()")
-        obs.append(ctx.ob("FMT", ["C05", "C12"], f, f"{q}: iterates a copy of the items while renaming keys", lp, okcopy,
-                          "" if okcopy else "renaming keys changes the dict during iteration"))
-        mapped = [st for st in ast.walk(lp) if isinstance(st, ast.Assign) and isinstance(st.value, ast.Subscript)
-                  and norm(st.value.value) == mapname and norm(st.value.slice) == kv]
-        ok = len(mapped) == 1
-        mv = norm(mapped[0].targets[0]) if ok else "?"
-        ren = [st for st in ast.walk(lp) if isinstance(st, ast.Assign) and norm(st.value) == f"data.pop({kv})"]
-        ok = ok and len(ren) == 1 and norm(ren[0].targets[0]) == f"data[{mv}]"
-        ident = [st for st in ast.walk(lp) if isinstance(st, ast.Assign) and norm(st.targets[0]) == mv and norm(st.value) == kv]
-        ok = ok and len(ident) == 1
-        obs.append(ctx.ob("FMT", ["C05", "C12"], f, f"{q}: a mapped key replaces the entry (data[new] = data.pop(old)); unmapped keys stay", lp, ok,
-                          "" if ok else "keys must be renamed exactly as the map declares"))
-        vms = [st for st in ast.walk(lp) if isinstance(st, ast.Assign) and isinstance(st.value, ast.Subscript)
-               and isinstance(st.value.value, ast.Subscript) and norm(st.value.value.value) == "value_map"]
+        okcopy = match(f"list({dname}.items())", lp.iter) is not None or match(f"tuple({dname}.items())", lp.iter) is not None
+        O(["C05", "C12"], f, f"{q}: iterates a copy of the items while renaming keys", okcopy, "renaming keys changes the dict during iteration", lp)
+        mp_ = one(f"$mk = {mapname}[{kv}]", lp)
+        ok = mp_ is not None
+        mv = mp_[1]["$mk"] if ok else "?"
+        ok = ok and has(f"{dname}[{mv}] = {dname}.pop({kv})", lp) and has(f"{mv} = {kv}", lp) and has(f"{kv} in {mapname}", lp)
+        O(["C05", "C12"], f, f"{q}: a mapped key replaces the entry (data[new] = data.pop(old)); unmapped keys stay", ok, "keys must be renamed exactly as the map declares", lp)
         want_key = mv if vm_key_is_mapped else kv
-        ok = len(vms) == 1 and norm(vms[0].value.value.slice) == want_key and norm(vms[0].value.slice) == vv and norm(vms[0].targets[0]) == f"data[{mv}]"
+        vms = find(f"{dname}[{mv}] = {vmname}[{want_key}][{vv}]", lp)
+        ok = len(vms) == 1
         if ok:
-            p = m.parent_of(vms[0])
-            ok = isinstance(p, ast.If) and f"{want_key} in value_map" in norm(p.test)
-        obs.append(ctx.ob("FMT", ["C05", "C12"], f, f"{q}: values are translated through value_map under the long key `{want_key}`", lp, ok,
-                          "" if ok else "value_map is keyed by the unmapped (long) key name on both sides (as documented); writer and reader must mirror"))
+            p_ = m.parent_of(vms[0][0])
+            ok = isinstance(p_, ast.If) and has(f"{want_key} in {vmname}", p_.test)
+        O(["C05", "C12"], f, f"{q}: values are translated through value_map under the long key", ok,
+          "value_map is keyed by the unmapped (long) key name on both sides (as documented); writer and reader must mirror", lp)
+    # ---- call_mapper: only None means "keep the dict"
+    cmf = m.func("call_mapper")
+    fn, _nd, dt = cmf.positional_params()[:3]
+    r_ = one(f"$r = {fn}($$a, {dt})", cmf.node)
+    ok = r_ is not None and has(f"if {fn} is None:\n    return {dt}", cmf.node) and has(f"if $r is None:\n    return {dt}", cmf.node, {"$r": r_[1]["$r"]}) \
+        and match("return $r", cmf.body[-1], {"$r": r_[1]["$r"]}) is not None
+    O(["C05", "C14", "C17", "C12"], cmf, "call_mapper: the mapper's result replaces the dict unless it is None (falsy results are values)", ok,
+      "`res or data` would replace a falsy data object (0, empty container) by the raw entry dict")
     # ---- zip streams
     oc = m.func("open_as_compressed_output_stream")
     ifs = [n for n in oc.body if isinstance(n, ast.If)]
-    ok = len(ifs) == 1 and norm(ifs[0].test) == "compression is False"
-    obs.append(ctx.ob("FMT", ["C05"], oc, "only `compression is False` writes plain JSON (0 == ZIP_STORED still zips)", None, ok,
-                      "" if ok else "a truthiness test would treat zipfile.ZIP_STORED (0) as 'no compression'"))
-    ys = [n for n in iter_own(oc.node) if isinstance(n, ast.Expr) and isinstance(n.value, ast.Yield) and norm(n.value.value) == "wrapper"]
+    ok = len(ifs) == 1 and match("compression is False", ifs[0].test) is not None
+    O(["C05"], oc, "only `compression is False` writes plain JSON (0 == ZIP_STORED still zips)", ok, "a truthiness test would treat zipfile.ZIP_STORED (0) as 'no compression'")
+    ys = find("yield $w", oc.node)
     ok = False
-    if ys:
-        blk = m.parent_of(ys[0])
+    for y, e_ in ys:
+        st_ = m.parent_of(y)
+        blk = m.parent_of(st_)
         body = getattr(blk, "body", [])
-        i = body.index(ys[0]) if ys[0] in body else -1
-        ok = i >= 0 and i + 1 < len(body) and norm(body[i + 1]) == "wrapper.flush()"
-    obs.append(ctx.ob("FMT", ["C05"], oc, "the text wrapper is flushed before the zip member closes", None, ok, "" if ok else "buffered JSON would be lost: truncated file"))
+        if st_ in body:
+            i = body.index(st_)
+            if i + 1 < len(body) and match("$w.flush()", body[i + 1], e_) is not None and has("$w = io.TextIOWrapper($$f, encoding=$$e)", oc.node, e_):
+                ok = True
+    O(["C05"], oc, "the text wrapper is flushed before the zip member closes", ok, "buffered JSON would be lost: truncated file")
     zf = [c for c in env.calls_in[oc] if norm(c.func) == "zipfile.ZipFile"]
     ok = len(zf) == 1 and any(k.arg == "compression" and norm(k.value) == "compression" for k in zf[0].keywords)
-    obs.append(ctx.ob("FMT", ["C05"], oc, "the requested zip method is passed to ZipFile", None, ok, "" if ok else "compression option ignored"))
+    O(["C05"], oc, "the requested zip method is passed to ZipFile", ok, "compression option ignored")
     sv_open = [c for c in env.calls_in[sv] if norm(c.func) == "open_as_compressed_output_stream"]
     ok = len(sv_open) == 1 and any(k.arg == "compression" and norm(k.value) == "compression" for k in sv_open[0].keywords)
-    obs.append(ctx.ob("FMT", ["C05"], sv, "save(path) opens the target with the caller's compression", None, ok, "" if ok else "compression option ignored"))
+    O(["C05"], sv, "save(path) opens the target with the caller's compression", ok, "compression option ignored")
     ld_open = [c for c in env.calls_in[ld] if norm(c.func) == "open_as_uncompressed_input_stream"]
     ok = len(ld_open) == 1 and any(k.arg == "auto_uncompress" and norm(k.value) == "auto_uncompress" for k in ld_open[0].keywords)
-    obs.append(ctx.ob("FMT", ["C05"], ld, "load(path) opens the source with the caller's auto_uncompress", None, ok, ""))
+    O(["C05"], ld, "load(path) opens the source with the caller's auto_uncompress", ok)
     # ---- KEYMAP-INJ
     for cn in m.subclasses("Tree"):
         km = _const_dict(m.class_const(cn, "DEFAULT_KEY_MAP"))
         if km is None:
             raise AnalysisError(f"{cn}.DEFAULT_KEY_MAP is not a literal dict")
-        inj = len(set(km.values())) == len(km)
-        obs.append(ctx.ob("FMT", ["C05", "C12"], f"{m.module_of_cls(cn)}:{cn}", f"{cn}.DEFAULT_KEY_MAP is injective", None, inj,
-                          "" if inj else "two long keys share a short key: the inverse map loses one"))
+        site = f"{m.module_of_cls(cn)}:{cn}"
+        O(["C05", "C12"], site, f"{cn}.DEFAULT_KEY_MAP is injective", len(set(km.values())) == len(km), "two long keys share a short key: the inverse map loses one")
         sm = m.lookup(cn, "serialize_mapper")
         emitted = _str_keys_written(sm) if sm is not None else set()
         clash = set(km.values()) & (emitted - set(km.keys()))
-        obs.append(ctx.ob("FMT", ["C05", "C19"], f"{m.module_of_cls(cn)}:{cn}", f"{cn}: default short keys do not collide with keys of its serialize_mapper", None, not clash,
-                          "" if not clash else f"short key(s) {sorted(clash)} are also emitted by the mapper: on load they are renamed to the long key"))
+        O(["C05", "C19"], site, f"{cn}: default short keys do not collide with keys of its serialize_mapper", not clash,
+          f"short key(s) {sorted(clash)} are also emitted by the mapper: on load they are renamed to the long key")
     ok = _const_dict(m.class_const("Tree", "DEFAULT_KEY_MAP")) == {"data_id": "i", "str": "s"} and \
         _const_dict(m.class_const("TypedTree", "DEFAULT_KEY_MAP")) == {"data_id": "i", "str": "s", "kind": "k"}
-    obs.append(ctx.ob("FMT", ["C12"], "tree:Tree", "default key maps equal the documented ones", None, ok, "" if ok else "the user guide documents the default maps"))
+    O(["C12"], "tree:Tree", "default key maps equal the documented ones", ok, "the user guide documents the default maps")
     # ---- TypedTree.save: kind value map
     ts = m.func("TypedTree.save")
-    ups = [c for c in ast.walk(ts.node) if isinstance(c, ast.Call) and isinstance(c.func, ast.Attribute) and c.func.attr == "update"
-           and c.args and isinstance(c.args[0], ast.Dict) and any(isinstance(k, ast.Constant) and k.value == "kind" for k in c.args[0].keys)]
-    sets = [st for st in ast.walk(ts.node) if isinstance(st, ast.Assign) and isinstance(st.targets[0], ast.Subscript)
-            and isinstance(st.targets[0].slice, ast.Constant) and st.targets[0].slice.value == "kind"]
-    ok = len(ups) + len(sets) == 1
+    ups = find("$vm.update({'kind': $$l})", ts.node) + find("$vm['kind'] = $$l", ts.node)
+    ok = len(ups) == 1
     if ok:
-        node_ = ups[0] if ups else sets[0]
-        p = m.parent_of(node_)
-        while p is not None and not isinstance(p, ast.If):
-            p = m.parent_of(p)
-        ok = isinstance(p, ast.If) and "'kind' not in" in norm(p.test)
-    obs.append(ctx.ob("FMT", ["C05"], ts, "typed save adds the list of kinds to the value map unless the caller supplied one", None, ok,
-                      "" if ok else "kind indices written to the entries must refer to a list stored in the header"))
+        p_ = m.parent_of(ups[0][0])
+        while p_ is not None and not isinstance(p_, ast.If):
+            p_ = m.parent_of(p_)
+        ok = isinstance(p_, ast.If) and has("'kind' not in $vm", p_.test, {"$vm": ups[0][1]["$vm"]})
+    O(["C05"], ts, "typed save adds the list of kinds to the value map unless the caller supplied one", ok,
+      "kind indices written to the entries must refer to a list stored in the header")
     loads = [x for x in ast.walk(ts.node) if isinstance(x, ast.Attribute) and x.attr in ("DEFAULT_VALUE_MAP", "DEFAULT_KEY_MAP")]
     ok = all(isinstance(m.parent_of(x), ast.Attribute) and m.parent_of(x).attr == "copy" for x in loads) and bool(loads)
-    obs.append(ctx.ob("FMT", ["C05"], ts, "the class default map is copied before the kind list is added", None, ok,
-                      "" if ok else "updating the class attribute leaks one tree's kinds into every later save"))
-    cnt = [lp for lp in ast.walk(ts.node) if isinstance(lp, ast.For) and any(".kind" in norm(st) for st in lp.body)]
+    O(["C05"], ts, "the class default map is copied before the kind list is added", ok, "updating the class attribute leaks one tree's kinds into every later save")
+    cnt = [lp for lp in ast.walk(ts.node) if isinstance(lp, ast.For) and has("$n.kind", lp.body)]
     ok = len(cnt) == 1 and norm(cnt[0].iter) in ("self", "self.iterator()", "self._root", "self.system_root")
-    obs.append(ctx.ob("FMT", ["C05"], ts, "the kind list is collected from all nodes of the tree", None, ok, "" if ok else "a kind missing from the list cannot be encoded"))
+    O(["C05"], ts, "the kind list is collected from all nodes of the tree", ok, "a kind missing from the list cannot be encoded")
     # ---- dict form: recursion in order
     td, fd = m.func("Node.to_dict"), m.func("Node.from_dict")
     lps = [n for n in iter_own(td.node) if isinstance(n, ast.For) and norm(n.iter) in ("self._children", "self.children")]
-    ok = len(lps) == 1 and len(lps[0].body) == 1 and norm(lps[0].body[0]).endswith(f".append({norm(lps[0].target)}.to_dict(mapper=mapper))")
+    ok = len(lps) == 1 and len(lps[0].body) == 1
     if ok:
-        acc = norm(lps[0].body[0]).split(".append(")[0]
-        ok = any(isinstance(st, ast.Assign) and "res['children']" in [norm(t) for t in st.targets] and acc in [norm(t) for t in st.targets] for st in ast.walk(td.node))
-    obs.append(ctx.ob("FMT", ["C14"], td, "to_dict nests the children's dicts in child order", None, ok, "" if ok else "the nested form mirrors the tree"))
-    cid = [n for n in iter_own(td.node) if isinstance(n, ast.If) and "_data_id" in norm(n.test) and "hash(" in norm(n.test)]
-    ok = len(cid) == 1 and norm(cid[0].body[0]) == "res['data_id'] = self._data_id"
-    obs.append(ctx.ob("FMT", ["C14"], td, "to_dict stores data_id when it is not the default", None, ok, "" if ok else "custom ids must survive"))
-    lps = [n for n in iter_own(fd.node) if isinstance(n, ast.For) and norm(n.iter) == "obj" and isinstance(n.target, ast.Name)]
+        e = match("$acc.append($c.to_dict(mapper=mapper))", lps[0].body[0])
+        ok = e is not None and e["$c"] == norm(lps[0].target)
+        if ok:
+            ok = any(isinstance(st_, ast.Assign) and "res['children']" in [norm(t) for t in st_.targets] and e["$acc"] in [norm(t) for t in st_.targets]
+                     for st_ in ast.walk(td.node)) or has(f"$r['children'] = {e['$acc']}", td.node)
+    O(["C14"], td, "to_dict nests the children's dicts in child order", ok, "the nested form mirrors the tree")
+    cid = [n for n in iter_own(td.node) if isinstance(n, ast.If) and match("self._data_id != hash(self._data)", n.test) is not None]
+    ok = len(cid) == 1 and match("$r['data_id'] = self._data_id", cid[0].body[0]) is not None
+    O(["C14"], td, "to_dict stores data_id whenever it is not hash(data) (falsy ids included)", ok, "custom ids must survive")
+    lps = [n for n in iter_own(fd.node) if isinstance(n, ast.For) and norm(n.iter) == fd.positional_params()[1] and isinstance(n.target, ast.Name)]
     ok = len(lps) == 1
     if ok:
         lp = lps[0]
@@ -386,14 +450,14 @@ def fmt(ctx: Ctx) -> List[Ob]:
         ok = len(adds) == 1 and len(recs) == 1 and any(k.arg == "data_id" and norm(k.value) == f"{iv}.get('data_id')" for k in adds[0].keywords)
         ok = ok and not any(k.arg == "before" for k in adds[0].keywords) and any(k.arg == "mapper" and norm(k.value) == "mapper" for k in recs[0].keywords)
         if ok:
-            tgt = [st for st in ast.walk(lp) if isinstance(st, ast.Assign) and st.value is adds[0]]
+            tgt = [st_ for st_ in ast.walk(lp) if isinstance(st_, ast.Assign) and st_.value is adds[0]]
             ok = len(tgt) == 1 and norm(recs[0].func.value) == norm(tgt[0].targets[0])
-            src = [st for st in ast.walk(lp) if isinstance(st, ast.Assign) and norm(st.targets[0]) == norm(recs[0].args[0])]
+            src = [st_ for st_ in ast.walk(lp) if isinstance(st_, ast.Assign) and norm(st_.targets[0]) == norm(recs[0].args[0])]
             ok = ok and len(src) == 1 and norm(src[0].value) == f"{iv}.get('children')"
-    obs.append(ctx.ob("FMT", ["C14"], fd, "from_dict appends one child per item in order, passing its data_id, and recurses into its 'children' on that child", None, ok,
-                      "" if ok else "shape, order, custom ids and nesting must be rebuilt"))
+    O(["C14"], fd, "from_dict appends one child per item in order, passing its data_id (read after the mapper ran), and recurses into its 'children' on that child", ok,
+      "shape, order, custom ids and nesting must be rebuilt; a deserialize mapper may supply item['data_id']")
     tl = m.func("Tree.to_dict_list")
     lps = [n for n in ast.walk(tl.node) if isinstance(n, ast.For)]
-    ok = len(lps) == 1 and "._root" in norm(lps[0].iter) and len(lps[0].body) == 1 and norm(lps[0].body[0]).endswith(f".append({norm(lps[0].target)}.to_dict(mapper=mapper))")
-    obs.append(ctx.ob("FMT", ["C14"], tl, "to_dict_list collects one dict per top-level node", None, ok, ""))
+    ok = len(lps) == 1 and "._root" in norm(lps[0].iter) and len(lps[0].body) == 1 and match(f"$acc.append({norm(lps[0].target)}.to_dict(mapper=mapper))", lps[0].body[0]) is not None
+    O(["C14"], tl, "to_dict_list collects one dict per top-level node", ok)
     return obs
